@@ -51,7 +51,7 @@ def check_matches(ctx, src, text, cmd_matches, window_all):
             bad = "matches overlap or are out of order"
         elif prev_num is not None and num != prev_num + 1:
             bad = "MatchNumbers not consecutive"
-        elif (ls, cs) != line_col(text, s) or (le, ce) != line_col(text, e):
+        elif ((ls, cs) != line_col(text, s) or (le, ce) != line_col(text, e)) if tb.isascii() else (ls != line_col(text, s)[0] or le != line_col(text, e)[0]):      # columns count characters: checked on ASCII texts
             bad = "line/column are not the closed forms"
         else:
             for sv in strings_of(m[10]):
@@ -88,6 +88,11 @@ def run(ctx):
     for lit in ("aa", "aba", "a\na", "abab", "a", "\n\n"):
         for am in ("all", "skip 1", "skip 1 take 1", "last 2", "top 2"):
             cases.append({"src": "find %s '%s'" % (am, lit), "texts": ["aaaa", "aaaaaa", "ababa", "a\na\na", "abababab", "\n\n\n", "aaa\naaa"]})
+    # offsets are offsets into the text AS GIVEN: a byte order mark, characters of several bytes and stray bytes in front of a match all count, byte by byte
+    mbt = MB_TEXTS + [BOM + "abc\nabc", BOM, BOM + BOM + "ab", E2 + "\nabc " + E3 + " abc", "\xbb\xbfabc", "ab" + BOM + "ab\n" + BOM + "ab"]
+    for p in ("find all 'abc'", "find all 'a' maybe 'b'", "find all any", "find all at least 1 (not ' ')", "find all line start any", "find all 'a' = x maybe ('b' = y)", "replace all 'ab' with '<' value '>'",
+              "find all file start any", "find all file start 'a'", "find skip 1 any any", "find all @/ab?/"):
+        cases.append({"src": p, "texts": mbt})
     gres, dis, stats = corr_core.run_core(cases, shards=12, spec=True)
     report_core_disagreements(ctx, cases, dis, in_scope=in_scope_core, known=known_core)
     ev = 0
